@@ -238,6 +238,9 @@ pub struct BatchResult<S> {
     pub harness_error: Option<String>,
     /// corpus + grid cases that precede the seeded runs in the run index
     pub n_pre: u64,
+    /// violations seen during the batch that fail neither minimised nor as found when replayed
+    /// on their own in a fresh process (they depend on what earlier runs left behind)
+    pub unreproducible: Vec<Found<S>>,
 }
 
 fn profile_hash(p: &str) -> u64 {
@@ -259,6 +262,7 @@ pub fn run_batch<H: Harness>(h: &H, cfg: &BatchCfg) -> BatchResult<H::Sc> {
     let next = AtomicU64::new(0);
     let found: Mutex<Option<Found<H::Sc>>> = Mutex::new(None);
     let known_hits: Mutex<Vec<(String, String)>> = Mutex::new(Vec::new());
+    let unrepro: Mutex<Vec<Found<H::Sc>>> = Mutex::new(Vec::new());
     let herr: Mutex<Option<String>> = Mutex::new(None);
     let total = Mutex::new(Agg::default());
 
@@ -311,11 +315,28 @@ pub fn run_batch<H: Harness>(h: &H, cfg: &BatchCfg) -> BatchResult<H::Sc> {
             }
             return;
         }
+        // A violation counts only if it fails again on its own in a fresh process: minimised, or
+        // else as it was found. One that does not (the code under test carries state over from
+        // earlier runs) is set aside and the batch goes on looking.
+        let dir = crate::cli::verif_dir().join("replays");
+        let (fsc, fv) = if fresh_reproduces(h, &msc, &mv, idx, cfg.seed, &dir) {
+            (msc, mv)
+        } else if fresh_reproduces(h, sc, &v, idx, cfg.seed, &dir) {
+            eprintln!("note: the minimised scenario does not fail on its own in a fresh process; reporting the scenario as found");
+            (sc.clone(), v)
+        } else {
+            let mut u = unrepro.lock().unwrap();
+            u.push(Found { sc: sc.clone(), v, run_index: idx });
+            if u.len() >= 40 {
+                stop.store(true, Ordering::SeqCst);
+            }
+            return;
+        };
         let mut f = found.lock().unwrap();
         if f.is_none() {
             *f = Some(Found {
-                sc: msc,
-                v: mv,
+                sc: fsc,
+                v: fv,
                 run_index: idx,
             });
         }
@@ -404,6 +425,7 @@ pub fn run_batch<H: Harness>(h: &H, cfg: &BatchCfg) -> BatchResult<H::Sc> {
         wall_s: start.elapsed().as_secs_f64(),
         harness_error: herr.into_inner().unwrap(),
         n_pre,
+        unreproducible: unrepro.into_inner().unwrap(),
     }
 }
 
@@ -415,6 +437,30 @@ pub fn panic_text(p: &Box<dyn std::any::Any + Send>) -> String {
     } else {
         "<non-string payload>".into()
     }
+}
+
+/// Does this scenario fail with the same clause when it is replayed on its own in a fresh process?
+fn fresh_reproduces<H: Harness>(h: &H, sc: &H::Sc, v: &Violation, idx: u64, seed: u64, dir: &Path) -> bool {
+    let f = Found { sc: sc.clone(), v: v.clone(), run_index: idx };
+    let tmp = dir.join(format!(".probe-{}-{}", std::process::id(), idx));
+    let Ok(p) = write_replay(h, &tmp, &f, seed) else {
+        let _ = std::fs::remove_dir_all(&tmp);
+        return false;
+    };
+    let ok = std::env::current_exe()
+        .ok()
+        .and_then(|exe| {
+            std::process::Command::new(exe)
+                .args(["replay", &p.display().to_string(), "--quiet"])
+                .stdout(std::process::Stdio::null())
+                .stderr(std::process::Stdio::null())
+                .status()
+                .ok()
+        })
+        .and_then(|s| s.code())
+        == Some(1);
+    let _ = std::fs::remove_dir_all(&tmp);
+    ok
 }
 
 /// Minimises a failing scenario: a candidate is accepted only if the same clause of
